@@ -30,12 +30,13 @@ const (
 	C07SubNoPrefix  // augment inside a submodule whose first step carries no prefix
 	C07ActionNoIO   // action without input/output statement, augment of its implicit input/output
 	C07EmptyDir     // childless containers inside a grouping used at 2-3 places, augmented at some instances only
+	C07SharedUses   // collision family: the clashing children of two or three augments come from uses of ONE grouping
 	C07NumShapes    // number of shapes
 )
 
 // C07ShapeNames names the shapes (Distribution keys).
 var C07ShapeNames = [...]string{"mixed", "chain-worst", "chain-random", "uses-target", "choice-case", "rpc-notif", "collision",
-	"non-container", "missing", "body-error", "submodule", "body-variety", "implicit-case(outside-claim)", "sub-noprefix", "action-no-io", "childless-grouping-node"}
+	"non-container", "missing", "body-error", "submodule", "body-variety", "implicit-case(outside-claim)", "sub-noprefix", "action-no-io", "childless-grouping-node", "collision-shared-grouping"}
 
 // Expectations for one augment statement.
 const (
@@ -79,6 +80,9 @@ type C07Aug struct {
 	ActionNoIO   bool      `json:"actionnoio,omitempty"`
 	// Childless: the target is an instance of a childless container of a grouping that is used at several places.
 	Childless bool `json:"childless,omitempty"`
+	// SharedUses: one of two or three augments of one target whose clashing children all come from
+	// uses of the same grouping (the same statement nodes reach the target twice).
+	SharedUses bool `json:"shareduses,omitempty"`
 }
 
 // C07Set is a generated set plus knowledge.
@@ -184,6 +188,9 @@ func GenerateC07(r *rand.Rand, shape int) *C07Set {
 		}
 		if g.wantEmpty {
 			g.op(C07EmptyDir)
+		}
+		if g.chance(0.12) {
+			g.op(C07SharedUses)
 		}
 		if g.chance(0.03) {
 			g.op(C07ImplicitCase)
@@ -1127,8 +1134,14 @@ func (g *c07g) op(shape int) {
 		}
 	case C07EmptyDir:
 		g.emptyOp()
+	case C07SharedUses:
+		g.sharedCollision()
 	case C07Collision:
-		g.collision()
+		if g.chance(0.2) {
+			g.sharedCollision()
+		} else {
+			g.collision()
+		}
 	case C07NonContainer:
 		var cs []c07cand
 		rpcish := func(n *c07sn) bool { return n.kw == "rpc" || n.kw == "action" }
@@ -1269,6 +1282,145 @@ func (g *c07g) op(shape int) {
 		w := g.writer(nil)
 		a := g.augOn(w, c, name, g.pathMode(w, c), g.body(w, g.chance(0.3)))
 		a.info.ActionNoIO = true
+	}
+}
+
+// groupRef: how writer w refers to grouping name defined at the top level of h ("" when w cannot see it
+// under the conservative visibility rule of visible()).
+func (g *c07g) groupRef(w, h *Module, name string) string {
+	switch {
+	case h == w:
+		if !w.Sub && g.chance(0.3) {
+			return w.Prefix + ":" + name
+		}
+		return name
+	case h.Sub:
+		for _, s := range w.Includes {
+			if s == h {
+				return name
+			}
+		}
+		return ""
+	case c07owner(w) != h:
+		return w.ImportPrefix[h] + ":" + name
+	}
+	return "" // a submodule and the module it belongs to
+}
+
+// sharedCollision: two or three augments of one target that each add the nodes of the SAME grouping
+// through uses. Every instance of a grouping node refers to the same statement, so this is the one
+// collision in which the clashing children are the very same definition; it is a collision all the
+// same: the second augment cannot be applied and has to be reported. Nothing else in what this adds
+// can fail.
+func (g *c07g) sharedCollision() {
+	name := C07ShapeNames[C07SharedUses]
+	c, found := g.anyTarget(func(n *c07sn) bool { return n.kw != "choice" })
+	if !found {
+		return
+	}
+	var mods, subs []*Module
+	for _, m := range g.mods {
+		if m.Sub {
+			subs = append(subs, m)
+		} else {
+			mods = append(mods, m)
+		}
+	}
+	pickMod := func(not *Module) *Module {
+		for try := 0; try < 8; try++ {
+			if m := mods[g.r.Intn(len(mods))]; m != not {
+				return m
+			}
+		}
+		return mods[g.r.Intn(len(mods))]
+	}
+	var w1, w2, home *Module
+	for try := 0; try < 12 && home == nil; try++ {
+		switch k := g.r.Intn(4); {
+		case k == 0: // one module (or submodule) twice
+			w1 = g.writer(nil)
+			w2 = w1
+		case k == 1: // two different modules
+			w1 = pickMod(nil)
+			w2 = pickMod(w1)
+		case k == 2 && len(subs) > 0: // a module and its submodule
+			w2 = subs[g.r.Intn(len(subs))]
+			w1 = w2.Owner
+		case len(subs) > 0: // a submodule and another module
+			w1 = subs[g.r.Intn(len(subs))]
+			w2 = pickMod(w1.Owner)
+		default:
+			w1 = pickMod(nil)
+			w2 = pickMod(w1)
+		}
+		if g.chance(0.5) {
+			w1, w2 = w2, w1
+		}
+		// where the grouping lives: the target's module, an augmenting module, a third module
+		cand := []*Module{c.mod, w1, w2, pickMod(nil), pickMod(c.mod)}
+		h := cand[g.r.Intn(len(cand))]
+		if g.groupRef(w1, h, "x") != "" && g.groupRef(w2, h, "x") != "" {
+			home = h
+		}
+	}
+	if home == nil {
+		w1 = pickMod(nil)
+		w2, home = w1, w1
+	}
+	writers := []*Module{w1, w2}
+	if g.chance(0.2) { // three-way
+		for try := 0; try < 8; try++ {
+			if w3 := g.writer(nil); g.groupRef(w3, home, "x") != "" {
+				writers = append(writers, w3)
+				break
+			}
+		}
+	}
+	gr := &Node{Kw: "grouping", Arg: g.name("g", home)}
+	switch g.r.Intn(3) {
+	case 0:
+		g.leaf(gr, g.name("f", home))
+	case 1:
+		g.leaf(gr, g.name("f", home))
+		g.leaf(gr.add("container", g.name("c", home)), g.name("f", home))
+	default:
+		g.leaf(gr.add("container", g.name("c", home)), g.name("f", home))
+	}
+	home.Groupings = append(home.Groupings, gr)
+	home.Body.Kids = append(home.Body.Kids, gr)
+	control := g.chance(0.12) // the first graft is hand written: different statements, same names
+	mode := g.pathMode(w1, c)
+	for i, w := range writers {
+		w := w
+		hand := control && i == 0
+		a := g.augOn(w, c, name, mode, func(a *Node, t *c07sn) {
+			if g.chance(0.35) {
+				g.leaf(a, g.augName(w))
+			}
+			if hand {
+				first := gr.Kids[0]
+				if first.Kw == "leaf" {
+					g.leaf(a, first.Arg)
+				} else {
+					g.leaf(a.add("container", first.Arg), g.augName(w))
+				}
+			} else {
+				u := a.add("uses", g.groupRef(w, home, gr.Arg))
+				u.Uses = gr
+			}
+			if g.chance(0.35) {
+				g.leaf(a, g.augName(w))
+			}
+		})
+		a.info.SharedUses = !control
+		c.n.walk(func(x *c07sn) {
+			if x.aug == a.info.ID {
+				x.noTarget = true
+			}
+		})
+		if i > 0 && g.chance(0.3) {
+			mode = g.pathMode(w, c)
+		}
 	}
 }
 
